@@ -178,7 +178,13 @@ def _quant(q):
                 return q == "forall"
             return sym.sbool(z3.And(*terms) if q == "forall" else z3.Or(*terms))
         v = z3.Int(interp.ctx.fresh_name("q"))
-        body = sym.truth_term(interp.ctx, interp.call(f, [SV(v, "int")], {}))
+        ctx = interp.ctx
+        saved = getattr(ctx, "quant_vars", None)
+        ctx.quant_vars = set(saved or ()) | ctx._syms(v)
+        try:
+            body = sym.truth_term(ctx, interp.call(f, [SV(v, "int")], {}))
+        finally:
+            ctx.quant_vars = saved
         body = z3.BoolVal(body) if isinstance(body, bool) else body
         rng = z3.And(*([v >= sym.zint(lo)] if lo is not None else []), *([v < sym.zint(hi)] if hi is not None else []), z3.BoolVal(True))
         if q == "forall":
@@ -287,7 +293,13 @@ def _p_today(interp, args, kwargs, env):
 def _p_forall_str(interp, args, kwargs, env):
     (f,) = args
     v = z3.String(interp.ctx.fresh_name("qs"))
-    body = sym.truth_term(interp.ctx, interp.call(f, [SV(v, "str")], {}))
+    ctx = interp.ctx
+    saved = getattr(ctx, "quant_vars", None)
+    ctx.quant_vars = set(saved or ()) | ctx._syms(v)
+    try:
+        body = sym.truth_term(ctx, interp.call(f, [SV(v, "str")], {}))
+    finally:
+        ctx.quant_vars = saved
     body = z3.BoolVal(body) if isinstance(body, bool) else body
     return sym.sbool(z3.ForAll([v], body))
 
